@@ -112,7 +112,7 @@ pub fn tcp_instances(s: &dt::Signature, response: bool) -> Vec<TcpInst> {
             let mss_choices: Vec<Option<u16>> = match (s.mss, has(&dt::TcpOption::Mss)) {
                 (Some(m), true) => vec![Some(m)],
                 (Some(_), false) => vec![],
-                (None, true) => vec![Some(1460), Some(1380)],
+                (None, true) => vec![Some(1460), Some(1380), Some(1024), Some(1408)],
                 (None, false) => vec![None],
             };
             for mss in mss_choices {
@@ -442,7 +442,7 @@ pub fn run(ctx: &Ctx) {
     let n_tcp = tcp_sigs.len() as u64;
     ctx.run_indexed(
         "tcp-signatures",
-        "every TCP SYN / SYN+ACK signature of p0f.fp x every instantiation class (IP version admitted, hops {0, 7, 30}, MSS {1460, 1380} for `*`, window scale {7, 0} for `*`, window realising the form - fixed value, modulus x3 / x4, mss*n, mtu*n, for `*`: odd / 8192 / mss*4 -, payload class) built as a real packet (option bytes realise the layout incl. eol+n padding, header bits realise exactly the quirks) through the TCP analyzer with the bundled database; oracle: best-match label is the signature's own or that of an earlier entry the traffic conforms to; non-trivial: the instantiation fills a wildcard or uses hops > 0",
+        "every TCP SYN / SYN+ACK signature of p0f.fp x every instantiation class (IP version admitted, hops {0, 7, 30}, MSS {1460, 1380, 1024, 1408} for `*` (incl. values that make MSS multiples divisible by 256), window scale {7, 0} for `*`, window realising the form - fixed value, modulus x3 / x4, mss*n, mtu*n, for `*`: odd / 8192 / mss*4 -, payload class) built as a real packet (option bytes realise the layout incl. eol+n padding, header bits realise exactly the quirks) through the TCP analyzer with the bundled database; oracle: best-match label is the signature's own or that of an earlier entry the traffic conforms to; non-trivial: the instantiation fills a wildcard or uses hops > 0",
         true,
         n_tcp,
         |idx, st| {
